@@ -729,7 +729,7 @@ IMPOPT_ENV = {
     "timestamp_hint": ("(b.ts1Hint, b.ts2Hint)", "Tuple:Opt:Int,Opt:Int"),
 }
 TARGETS.append(dict(
-    module="pyp0f.impersonate.tcp", func="_impersonate_options", file="ImpersonateOptions", lean="impOptions", import_="P0f.Model.Impersonate",
+    module="pyp0f.impersonate.tcp", func="_impersonate_options", file="ImpersonateOptions", lean="impOptions", import_="P0f.Model.Impersonate", divok=True,
     pyparams=["tcp", "signature", "uptime"], params=[("s", "Sig"), ("b", "Base"), ("uptime", "Option Int"), ("c", "Choices")],
     ret="List:Rec:SOpt", lean_ret="List SOpt", pre=_impopt_pre, env=IMPOPT_ENV, sort_carried=True, tuple_hook=_sopt_tuple,
     lean_types={"Rec:SOpt": "SOpt"}, list_types={"options": "List:Rec:SOpt"}, opt_types={"impersonated_option": "Opt:Rec:SOpt"},
@@ -745,7 +745,10 @@ TARGETS.append(dict(
            if len(a) == 1 and not k else (_ for _ in ()).throw(NotTranslatable("_align_options call shape"))},
     alias="def impOptions_loop0 (s : Sig) (b : Base) (uptime : Option Int) (c : Choices) (tcp_type : Nat) (ks : List Nat) (options : List SOpt) "
           "(rnd_stream : List (Nat × Nat)) : List SOpt := P0f.alignOptions (options ++ P0f.impOptionsGo s b uptime ks rnd_stream)\n"
-          "def impOptions (s : Sig) (b : Base) (uptime : Option Int) (c : Choices) : List SOpt := P0f.impOptions s b uptime c\n",
+          "def impOptions (s : Sig) (b : Base) (uptime : Option Int) (c : Choices) : List SOpt := P0f.impOptions s b uptime c\n"
+          "def impOptions_divok_loop0 (s : Sig) (b : Base) (uptime : Option Int) (c : Choices) (tcp_type : Nat) (ks : List Nat) (options : List SOpt) "
+          "(rnd_stream : List (Nat × Nat)) : Bool := true\n"
+          "def impOptions_divok (s : Sig) (b : Base) (uptime : Option Int) (c : Choices) : Bool := true\n",
 ))
 
 # ---------------------------------------------------------------------------------------------- C09 / C10: signature text parsers
